@@ -172,7 +172,7 @@ pub fn jobs() -> Vec<Job> {
     let c = cat();
     let mut v = Vec::new();
     let mut seen = std::collections::HashSet::new();
-    for g in ["core", "syntax", "prebuilt", "write", "sep", "prefix_noreq"] {
+    for g in ["core", "syntax", "prebuilt", "write", "sep", "prefix_noreq", "sep_case"] {
         for i in c.group(g) {
             let e = &c.entries[i];
             let m = &c.models[i];
